@@ -463,6 +463,7 @@ class ClientSys:
         if 'buf' in self.fams:
             if len(self.bufs) < self.max['buf']:
                 o += [['b_new', 1024, 1, 'none'], ['b_new', 512, 2, 'fn'],
+                      ['b_new', 1024, 1, 'none', False],
                       ['b_consec', 2, True], ['b_consec', 3, True]]
             for e, ent in enumerate(self.bufs):
                 if ent['state'] == 'stale':
@@ -576,6 +577,9 @@ class ClientSys:
             for n in (2, 3):
                 o += [['b_consec', n, True], ['b_consec', n, False]]
             o += [['b_read'], ['b_cue'], ['b_new_alloc']]
+            # the only constructor taking the keyword is Buffer(...) itself
+            o += [['b_new', 1024, 1, 'none', False],
+                  ['b_new', 512, 2, 'fn', False], ['b_new_alloc', False]]
         for e, ent in enumerate(self.bufs):
             if ent['state'] == 'stale':
                 continue
@@ -1079,7 +1083,7 @@ class ClientSys:
                 'expect': [['/n_order', ACTION[act], tid] + ids]}
 
     # ---- buffers --------------------------------------------------------------
-    def _new_bufs(self, objs, consecutive=False):
+    def _new_bufs(self, objs, consecutive=False, cached=True):
         ids = [getattr(b, 'bufnum', None) for b in objs]
         if not all(isinstance(i, int) and not isinstance(i, bool)
                    for i in ids):
@@ -1092,7 +1096,8 @@ class ClientSys:
             raise _Disagree('id-collision:buf',
                             f'numbers not owned by a live buffer '
                             f'({sorted(live)})', ids)
-        self.bufs.append({'objs': list(objs), 'ids': ids, 'state': 'live'})
+        self.bufs.append({'objs': list(objs), 'ids': ids, 'state': 'live',
+                          'cached': cached})
         self._bump(('b', len(self.bufs) - 1))
         return ids
 
@@ -1112,27 +1117,32 @@ class ClientSys:
             return [{'blob': [list(STATIC_COMPLETION)]}]
         return [{'blob': [['/b_query', bid]]}]
 
-    def _op_b_new(self, frames, ch, compl):
+    def _op_b_new(self, frames, ch, compl, cache=True):
+        # cache=False: the legal keyword that keeps the object out of the
+        # class-level info cache; life cycle and commands must be the same
         from sc3.synth.buffer import Buffer
+        kw = {} if cache else {'cache': False}
 
         def expect(obj):
-            bid = self._new_bufs([obj])[0]
+            bid = self._new_bufs([obj], cached=cache)[0]
             return [['/b_alloc', bid, frames, ch] +
                     self._compl_exp(compl, bid)]
         return {'call': lambda: Buffer(frames, ch,
-                                       completion_msg=self._compl(compl)),
+                                       completion_msg=self._compl(compl),
+                                       **kw),
                 'expect': expect}
 
-    def _op_b_new_alloc(self):
+    def _op_b_new_alloc(self, cache=True):
         from sc3.synth.buffer import Buffer
+        kw = {} if cache else {'cache': False}
 
         def call():
-            b = Buffer(256, 1, alloc=False)
+            b = Buffer(256, 1, alloc=False, **kw)
             b.alloc()
             return b
 
         def expect(obj):
-            bid = self._new_bufs([obj])[0]
+            bid = self._new_bufs([obj], cached=cache)[0]
             return [['/b_alloc', bid, 256, 1, OPT]]
         return {'call': call, 'expect': expect}
 
@@ -1394,7 +1404,7 @@ class ClientSys:
             'nodes': [[n['kind'], n['cls'], n['id'], n['state'],
                        getattr(n['obj'], 'node_id', None)]
                       for n in self.nodes],
-            'bufs': [[e['ids'], e['state'],
+            'bufs': [[e['ids'], e['state'], e['cached'],
                       [getattr(b, 'bufnum', None) for b in e['objs']]]
                      for e in self.bufs],
             'buses': [[b['rate'], b['idx0'], b['ch0'], b['state'],
@@ -1608,7 +1618,8 @@ def main(ctx):
         'Group/ParGroup/Synth with every add action x target kind, '
         'set/setn/map/mapn/mapa/mapan/fill/release/run/move/free/... with '
         'scalar, list, tuple, dict, bus, buffer and node arguments, Buffer '
-        'single/consecutive allocation, use, free, free_all, Control/Audio '
+        'single (cached and cache=False)/consecutive allocation, use, free, '
+        'free_all, Control/Audio '
         'bus allocation, use, free, bind()/exit/exit-by-exception) on the '
         'real objects in NRT mode: wide alphabets (all argument variants) to '
         'depth 3-5 per object family and mixed, plus a narrow life-cycle '
